@@ -54,7 +54,7 @@ def bkStep (s : BkSt) (line : String) : BkSt × String :=
       -- the first hand-over initialises the reference state; later ones must agree with it
       let first := dumpSVal s.spec == dumpSVal (SVal.bkt 0 [])
       let sp' := if first then sp else s.spec
-      ({ s with orig := b, cur := some (closeAll b), spec := sp' }, "ok" ++ (if dumpSVal sp == dumpSVal sp' then " a=true" else " a=false") ++ s!" o={origOk Bkt.fuel b} w={decide (WF Bkt.fuel b (closeAll b))}")
+      ({ s with orig := b, cur := some (closeAll b), spec := sp' }, "ok" ++ (if dumpSVal sp == dumpSVal sp' then " a=true" else " a=false") ++ s!" o={origOk Bkt.fuel b} w={decide (WF Bkt.fuel b (closeAll b))} z={inlZeroOk Bkt.fuel b}")
     | none => ({ s with cur := none }, "bad-bucket-tree")
   | ["cfg", ps, sth, rth] => ({ s with ps := ps.toNat!, sth := sth.toNat!, rth := rth.toNat! }, "ok")
   | ["open", path, name] => at_ path (openAt Bkt.fuel s.orig (parseBPath path) (unhex name)) "nil" (fun r _ => .ok r)
